@@ -98,15 +98,51 @@ def units_for(tier: str) -> List[Any]:
     return units
 
 
+def wc_units(tier: str) -> List[Any]:
+    import itertools
+    units: List[Any] = []
+    kinds = [('gate', 'ok'), ('child', 'ok')]
+    for n in range(1, (2 if tier == 'quick' else 3) + 1):
+        for items in itertools.product(kinds, repeat=n):
+            if sum(1 for k, _ in items if k == 'child') > 1 and n == 3:
+                continue
+            for how in ('return', 'call'):
+                units.append(((items, how, False), None))
+    return units
+
+
+def wc_factory() -> Any:
+    from . import c10
+    return c10.PROP
+
+
 def run_check(tier: str, seed: int, workers: Any) -> Dict[str, Any]:
     budget = {'K': 2, 'J': 2} if tier == 'quick' else {'K': 3, 'J': 3}
-    return runner.run_explorer(
+    part1 = runner.run_explorer(
         factory, (), units_for(tier), budget, seed, workers,
-        rule='every placement of <=J resume calls (values v1, None, no value) and <=K pause/play requests between any two loop '
-             'callbacks of every generated waiting program (x scripted listener requests); run closed by play and by a '
-             'resume only if none was accepted; non-trivial = an accepted resume together with a pause/play request',
+        rule='(i) every placement of <=J resume calls (values v1, None, no value) and <=K pause/play requests between any '
+             'two loop callbacks of every generated waiting program (x scripted listener requests); run closed by play and '
+             'by a resume only if none was accepted; non-trivial = an accepted resume together with a pause/play request',
         assumptions=['single event loop thread; control calls land between two loop callbacks'],
         bounds=dict(budget, program_len=3), describe=describe_unit)
+    wbudget = {'K': 2, 'J': 9}
+    part2 = runner.run_explorer(
+        wc_factory, (), wc_units(tier), wbudget, seed, workers,
+        rule='(ii) work chains whose step awaits n loop futures / launched children (all completing successfully): every '
+             'order and placement of the completions x <=K pause/play requests; after the closing play the chain must have '
+             'continued exactly once with every result in the context',
+        assumptions=[], bounds=dict(wbudget, n_items=2 if tier == 'quick' else 3),
+        describe=lambda u: {'items': u[0][0], 'how': u[0][1]})
+    for v in part2['violations']:
+        v['features'] = dict(v.get('features', {}), part='workchain')
+    return runner.merge([part1, part2])
 
 
-replay = PROP.replay
+def replay(doc: Dict[str, Any]) -> List[Dict[str, Any]]:
+    unit = doc.get('unit')
+    if unit and isinstance(unit[0], list) and unit[0] and isinstance(unit[0][0], list) and unit[0][0] and \
+            isinstance(unit[0][0][0], list) and unit[0][0][0] and unit[0][0][0][0] in ('gate', 'child'):
+        return wc_factory().replay(doc)
+    return PROP.replay(doc)
+
+
